@@ -125,6 +125,19 @@ func (b *Bucket) Do(req *http.Request) (*http.Response, error) {
 		Body: io.NopCloser(strings.NewReader("")), Request: req}, nil
 }
 
+// slowRecently: an upload is stalled right now, or a stalled one finished
+// less than a minute ago.
+func (b *Bucket) slowRecently(now time.Duration) bool {
+	b.mu.Lock()
+	defer b.mu.Unlock()
+	for _, u := range b.Uploads {
+		if u.Outcome >= 3 && (!u.Done || now-u.EndT < time.Minute) {
+			return true
+		}
+	}
+	return false
+}
+
 // World is one backup run.
 type World struct {
 	S      *kernel.Sim
@@ -191,7 +204,7 @@ func Run(s *kernel.Sim) *World {
 		d.Put(sup, "seed", []byte(fmt.Sprintf("v%d", i)))
 	}
 	w.snapshotFile()
-	w.Bucket = &Bucket{w: w, killed: make(chan struct{}), StallD: []time.Duration{10 * time.Second, 2 * time.Minute, 6 * time.Minute}[t.Choice(3)]}
+	w.Bucket = &Bucket{w: w, killed: make(chan struct{}), StallD: []time.Duration{10 * time.Second, 95 * time.Second, 130 * time.Second, 2 * time.Minute, 6 * time.Minute}[t.Choice(5)]}
 	if t.Bool(2, 3) {
 		for i := 0; i < 10; i++ {
 			w.Bucket.Script = append(w.Bucket.Script, t.Weighted([]int{6, 2, 2, 1, 1}))
@@ -271,8 +284,12 @@ func Run(s *kernel.Sim) *World {
 				s.Release(tk)
 			}})
 		}
+		wWrite := 2
+		if w.Bucket.slowRecently(s.Now()) {
+			wWrite = 12 // writes during and right after a slow upload
+		}
 		if !cancelled && s.Now() < stopWrites {
-			acts = append(acts, act{2, func() {
+			acts = append(acts, act{wWrite, func() {
 				// a burst of writes
 				nb := t.Range(1, 3)
 				writersBusy++
@@ -293,6 +310,9 @@ func Run(s *kernel.Sim) *World {
 		if len(en) == 0 {
 			acts = append(acts, act{6, func() {
 				dlt := []time.Duration{time.Second, 10 * time.Second, 59 * time.Second, 61 * time.Second, 5 * time.Minute, time.Hour}[t.Weighted([]int{2, 2, 2, 3, 2, 1})]
+				if w.Bucket.slowRecently(s.Now()) {
+					dlt = []time.Duration{time.Second, 5 * time.Second, 20 * time.Second}[t.Choice(3)]
+				}
 				if idleFrom < 0 {
 					idleFrom = s.Now()
 					idleLocks = 0
